@@ -1,9 +1,12 @@
 package props
 
 import (
+	"context"
 	"fmt"
 	"math/rand"
+	"net/url"
 	"strings"
+	"sync"
 	"time"
 
 	"verif/harness/core"
@@ -100,7 +103,7 @@ func judgeSSOOutcome(r *core.Run, wl string, idx int, class string, e *env.Env, 
 		if d.Success() {
 			viol("success_without_persist", "SSO endpoint produced a Success response")
 		}
-		if d.Kind == "redirect" && d.Status != 302 {
+		if d.Kind == "redirect" && d.Status != 302 && d.Status != 303 {
 			viol("redirect_status", fmt.Sprintf("redirect-binding reply with status %d", d.Status))
 		}
 		if d.Kind != "redirect" && d.Status != 200 {
@@ -116,6 +119,83 @@ func judgeSSOOutcome(r *core.Run, wl string, idx int, class string, e *env.Env, 
 		}
 		viol("unclassified_reply", fmt.Sprintf("status %d kind %s", d.Status, d.Kind))
 		return "bad"
+	}
+}
+
+// c08ConcurrentDuplicates submits one request twice (or two requests sharing one ID) at the same time on one provider.
+// Both submissions are held inside CreateAuthRequest until the other one is there too (or clearly will not come),
+// so whatever the handler does around persisting happens for both at once. Each submission is then judged on its own:
+// persisted => 303 to the login URL of the identifier it got; not persisted => one error reply; afterwards the
+// storage holds exactly the records of the submissions that were sent on to login.
+func c08ConcurrentDuplicates(r *core.Run, idx int, rng *rand.Rand) {
+	const wl = "concurrent_duplicates"
+	c := conformantSSO(rng)
+	c.Host = ""
+	c.Signed = false
+	c.SPD.AuthnRequestsSigned, c.Want = "", ""
+	e := env.Static(env.Opts{})
+	mustRegister(e.W, c.SPD, "appA")
+	x1 := c.Req.XML(rng)
+	x2 := x1
+	sameContent := idx%2 == 0
+	if !sameContent { // same request ID, other content
+		c.Req.ProviderName = "other " + plainString(rng, 4)
+		x2 = c.Req.XML(rng)
+	}
+	mk := func(x, tag string) env.Req {
+		if idx%4 < 2 {
+			return env.Req{Method: "POST", Path: env.PathSSO, Body: spsim.FormBody("SAMLRequest", spsim.B64([]byte(x)), "RelayState", "MKrelay"), Tag: tag}
+		}
+		return env.Req{Path: env.PathSSO, Query: "SAMLRequest=" + url.QueryEscape(spsim.DeflateB64(x)) + "&RelayState=MKrelay", Tag: tag}
+	}
+	tags := [2]string{fmt.Sprintf("dupA%d", idx), fmt.Sprintf("dupB%d", idx)}
+	var inside [2]chan struct{}
+	inside[0], inside[1] = make(chan struct{}), make(chan struct{})
+	var once [2]sync.Once
+	e.W.Before = func(_ context.Context, tag, op string, occ int) {
+		if op != "CreateAuthRequest" {
+			return
+		}
+		for i := range tags {
+			if tag == tags[i] {
+				once[i].Do(func() { close(inside[i]) })
+				select {
+				case <-inside[1-i]:
+				case <-time.After(30 * time.Millisecond):
+				}
+			}
+		}
+	}
+	reqs := [2]env.Req{mk(x1, tags[0]), mk(x2, tags[1])}
+	var calls [2]*env.Call
+	var wg sync.WaitGroup
+	for i := range reqs {
+		wg.Add(1)
+		go func(i int) { defer wg.Done(); calls[i] = e.Do(reqs[i]) }(i)
+	}
+	wg.Wait()
+	class := fmt.Sprintf("concurrent_duplicates|same_content=%v", sameContent)
+	r.Eval(fmt.Sprintf("%s|%d", class, idx))
+	r.Count("concurrent_duplicate_pairs", 1)
+	sentOn := 0
+	for i, call := range calls {
+		desc := map[string]any{"submission": i, "same_content": sameContent, "xml": clipS([]string{x1, x2}[i], 1200)}
+		if judgeSSOOutcome(r, wl, idx, class, e, call, desc) == "accepted" {
+			sentOn++
+		}
+	}
+	select {
+	case <-inside[0]:
+		select {
+		case <-inside[1]:
+			r.Count("pairs_with_both_submissions_inside_persist", 1)
+		default:
+		}
+	default:
+	}
+	if n := e.W.NumRequests(); n != sentOn {
+		r.Violate(core.Violation{Clause: "record_left_behind", Class: class, Reason: fmt.Sprintf("%d records are stored but %d submissions were sent on to login", n, sentOn), Workload: wl, Index: idx,
+			Case: map[string]any{"same_content": sameContent}, Observed: map[string]any{"first": calls[0].Describe(), "second": calls[1].Describe()}})
 	}
 }
 
@@ -333,9 +413,11 @@ func init() {
 			r.Require("distinct_reply_shapes", 2)
 			r.Require("registration_unanswerable_checked", 100)
 			r.Require("registration_answerable_checked", 100)
+			r.Require("concurrent_duplicate_pairs", 50)
 			return []core.Workload{
 				{Name: "sso_outcomes", N: c.Pick(1600, 16000), Fn: c08Case},
 				{Name: "registration_changes", N: c.Pick(150, 1500), Fn: c08Registration},
+				{Name: "concurrent_duplicates", N: c.Pick(80, 800), Fn: c08ConcurrentDuplicates},
 			}
 		},
 		After: func(c *Ctx) {
